@@ -1,0 +1,82 @@
+//go:build verif
+
+package dastard
+
+// Verification hooks for property C12 (phase unwrapping), build tag "verif" only: accessors that hand
+// the harness the PhaseUnwrapper objects the program itself constructs for an option set.
+// No logic of dastard is changed here.
+
+import (
+	"encoding/binary"
+	"fmt"
+	"net"
+	"time"
+)
+
+// VerifC12Limits projects the configuration fields of an unwrapper (for tags / diagnostics only).
+func (u *PhaseUnwrapper) VerifC12Limits() (lower, upper int, twoPi, resetOffset uint16, resetAfter int) {
+	return int(u.lowerStepLim), int(u.upperStepLim), u.twoPi, u.resetOffset, u.resetAfter
+}
+
+// VerifC12AbacoUnwrapper does what AbacoSource does with an option set: validate it (Configure), then
+// build the channel group (NewAbacoGroup); it returns the unwrapper of channel firstchan+idx.
+// A non-nil error means the option set was rejected by isvalid().
+func VerifC12AbacoUnwrapper(opt AbacoUnwrapOptions, firstchan, nchan, idx int) (*PhaseUnwrapper, error) {
+	if err := opt.isvalid(); err != nil {
+		return nil, err
+	}
+	g := NewAbacoGroup(GroupIndex{Firstchan: firstchan, Nchan: nchan}, opt)
+	if idx < 0 || idx >= len(g.unwrap) {
+		return nil, fmt.Errorf("verif: channel index %d out of range", idx)
+	}
+	return g.unwrap[idx], nil
+}
+
+// VerifC12RoachUnwrapper does what RoachSource does with an option set: validate it (Configure), make a
+// device, and let samplePacket() build the unwrappers from one UDP packet (sent here over loopback to the
+// device's own socket).  rejected=true means isvalid() refused the options; err reports a transport problem.
+func VerifC12RoachUnwrapper(opt AbacoUnwrapOptions) (u *PhaseUnwrapper, rejected bool, err error) {
+	if e := opt.isvalid(); e != nil {
+		return nil, true, nil
+	}
+	dev, err := NewRoachDevice("127.0.0.1:0", 40000.0)
+	if err != nil {
+		return nil, false, err
+	}
+	defer dev.conn.Close()
+	dev.unwrapOpts = opt
+	// header: unused, fluxramp flag, nchan=1, nsamp=1, flags=1 (2-byte words), sampnum=0; then one sample
+	pkt := make([]byte, 18)
+	pkt[1] = 1
+	binary.BigEndian.PutUint16(pkt[2:], 1)
+	binary.BigEndian.PutUint16(pkt[4:], 1)
+	binary.BigEndian.PutUint16(pkt[6:], 1)
+	sender, err := net.DialUDP("udp", nil, dev.conn.LocalAddr().(*net.UDPAddr))
+	if err != nil {
+		return nil, false, err
+	}
+	defer sender.Close()
+	for attempt := 0; attempt < 5; attempt++ {
+		if _, err = sender.Write(pkt); err != nil {
+			time.Sleep(10 * time.Millisecond)
+			continue
+		}
+		// samplePacket parses whatever is in its buffer even after a read timeout, and parsePacket
+		// panics on an all-zero header: treat that as a lost packet and retry.
+		err = func() (e error) {
+			defer func() {
+				if r := recover(); r != nil {
+					e = fmt.Errorf("verif: samplePacket panicked: %v", r)
+				}
+			}()
+			return dev.samplePacket()
+		}()
+		if err == nil && len(dev.unwrap) == 1 {
+			return dev.unwrap[0], false, nil
+		}
+	}
+	if err == nil {
+		err = fmt.Errorf("verif: samplePacket built %d unwrappers, want 1", len(dev.unwrap))
+	}
+	return nil, false, err
+}
